@@ -51,6 +51,92 @@ type Case struct {
 	Idx   []int    `json:"dimension_indices"`
 	Names []string `json:"dimension_values"`
 	Entry string   `json:"entry_point"` // ContainerEdits.Apply | Device.ApplyEdits | Spec.ApplyEdits
+	// Chain, when set, is a history of Apply calls over shared objects: step {E,S} applies edit
+	// object E of chainEdits (built once per history and reused) to OCI spec S of chainSpecs.
+	Chain []Step `json:"chain,omitempty"`
+}
+
+type Step struct{ E, S int }
+
+// edit objects and initial OCI specs of the histories (index vectors into dims)
+var chainEdits = [][]int{
+	{0, 0, 0, 0, 1, 0, 0, 0, 0, 1},  // env new + rdt set
+	{0, 0, 0, 0, 0, 0, 0, 0, 3, 2},  // gids + rdt without closid
+	{0, 0, 0, 0, 4, 0, 6, 0, 0, 0},  // env override/repeated + mounts replace+siblings
+	{0, 0, 0, 0, 0, 12, 0, 8, 0, 0}, // device nodes replace+new + a hook per stage
+	{0, 0, 0, 0, 0, 0, 4, 0, 4, 1},  // mounts deep-then-shallow + gids + rdt set (another closid)
+	{0, 0, 0, 0, 3, 7, 2, 7, 2, 0},  // env repeated, char node with all attributes, mount replaced, two hooks in a stage, gids
+}
+var chainSpecs = [][]int{
+	{0, 0, 0, 0, 0, 0, 0, 0, 0, 0},
+	{2, 3, 1, 1, 0, 0, 0, 0, 0, 0},
+}
+
+func evalChain(c Case, scratch string) hx.Result {
+	return hx.Guard("", c, func() hx.Result {
+		fail := func(sig, msg string, exp, act any) hx.Result {
+			return hx.Result{Outcome: "FAIL", Nontrivial: true, Fail: &hx.Failure{Sig: "history:" + c.Entry + ":" + sig, Msg: msg, Case: c, Expected: exp, Actual: act, Rank: int64(len(c.Chain))}}
+		}
+		pristine := make([]*specs.ContainerEdits, len(chainEdits))
+		for k, idx := range chainEdits {
+			pristine[k] = buildEdits(Case{Idx: idx})
+			if pristine[k].IntelRdt != nil && pristine[k].IntelRdt.ClosID != "" {
+				pristine[k].IntelRdt.ClosID = fmt.Sprintf("clos-%d", k)
+			}
+		}
+		// the objects under test: built once, used by every step of the history
+		apply := make([]func(*oci.Spec) error, len(chainEdits))
+		if c.Entry == "ContainerEdits.Apply" {
+			for k := range pristine {
+				e := &cdi.ContainerEdits{ContainerEdits: refmodel.CopyEdits(pristine[k])}
+				apply[k] = e.Apply
+			}
+		} else {
+			raw := &specs.Spec{Version: "1.0.0", Kind: "vendor.com/class"}
+			for k := range pristine {
+				raw.Devices = append(raw.Devices, specs.Device{Name: fmt.Sprintf("dev%d", k), ContainerEdits: *refmodel.CopyEdits(pristine[k])})
+			}
+			path := filepath.Join(scratch, "chain.json")
+			if e2 := os.WriteFile(path, gen.RenderJSON(raw), 0o644); e2 != nil {
+				panic(e2)
+			}
+			sp, rerr := cdi.ReadSpec(path, 0)
+			if rerr != nil {
+				return fail("spec-not-loadable", "the Spec holding the edit objects does not load: "+rerr.Error(), nil, nil)
+			}
+			for k := range pristine {
+				apply[k] = sp.GetDevice(fmt.Sprintf("dev%d", k)).ApplyEdits
+			}
+		}
+		want := make([]*oci.Spec, len(chainSpecs))
+		got := make([]*oci.Spec, len(chainSpecs))
+		for j, idx := range chainSpecs {
+			want[j] = buildOCI(Case{Idx: idx})
+			got[j] = refmodel.CopyOCI(want[j])
+		}
+		for n, st := range c.Chain {
+			w, werr := refmodel.ApplyEdits(want[st.S], pristine[st.E], gen.Stat)
+			if werr != nil {
+				return hx.Result{Outcome: "history-model-error", Nontrivial: false}
+			}
+			want[st.S] = w
+			if err := apply[st.E](got[st.S]); err != nil {
+				return fail(fmt.Sprintf("unexpected-error:step%d", n+1), "Apply failed: "+err.Error(), nil, err.Error())
+			}
+			// every OCI spec of the history is compared, not only the one just edited
+			for j := range want {
+				if ok, where := refmodel.OCIEqual(want[j], got[j]); !ok {
+					which := "the-spec-just-edited"
+					if j != st.S {
+						which = "another-spec"
+					}
+					return fail(fmt.Sprintf("differs-in:%s:%s:at-step-%d-of-%d", where, which, n+1, len(c.Chain)),
+						fmt.Sprintf("after step %d of the history the OCI spec %d differs from the reference model in section(s) %s", n+1, j, where), refmodel.Normalise(want[j]), refmodel.Normalise(got[j]))
+				}
+			}
+		}
+		return hx.Result{Outcome: fmt.Sprintf("history-equal:len=%d", len(c.Chain)), Nontrivial: true}
+	})
 }
 
 func (c Case) opt(d int) string { return dims[d].opts[c.Idx[d]] }
@@ -227,6 +313,9 @@ func buildEdits(c Case) *specs.ContainerEdits {
 var specDir string
 
 func eval(c Case, scratch string) hx.Result {
+	if len(c.Chain) > 0 {
+		return evalChain(c, scratch)
+	}
 	c.Names = make([]string, len(dims))
 	for d := range dims {
 		c.Names[d] = dims[d].name + "=" + c.opt(d)
@@ -390,6 +479,7 @@ func main() {
 		map[bool]string{true: "thorough: the full product", false: "quick: all pairs of dimensions against an all-none and a busy default, plus all (process,linux,devnodes) triples"}[r.Thorough()] +
 		"; each through ContainerEdits.Apply, and through Device.ApplyEdits / Spec.ApplyEdits of a Spec read from a file; host nodes are real mknod b/c/p nodes. " +
 		"Oracle: straight-line reference transformer from the statement; env compared by name, devices by path, GIDs as a set, cgroup rules/mounts/hooks by position, everything else exactly. " +
+		"Then histories: every sequence of a fixed length (3 quick, 4 thorough) of Apply calls of 6 edit objects built once (resp. the devices of one loaded Spec) on 2 OCI specs, both specs compared with the model after every step. " +
 		"Distinct by construction; non-trivial = at least one dimension is not none/nil"
 	r.Assumptions = []string{"initial specs contain no duplicate env names / device paths / mount destinations (outcome not defined by the statement)",
 		"device type 'u' and edit destinations that equal an existing one only after path cleaning are not generated (not defined by the statement)",
@@ -437,6 +527,39 @@ func main() {
 		l.Record(res, func() any { return map[string]any{"entry": again[i].Entry, "pass": "host nodes re-created", "outcome": res.Outcome} })
 	})
 	r.Extra["cases_repeated_after_host_nodes_were_recreated"] = len(again)
+	// third pass: histories. Edit objects (resp. the devices of one loaded Spec) are built once
+	// and applied repeatedly, to two OCI specs, in every order of up to chainLen steps; after every
+	// step both OCI specs must equal the model's (which works on pristine copies of the edits).
+	chainLen := 3
+	if r.Thorough() {
+		chainLen = 4
+	}
+	var chains []Case
+	nst := len(chainEdits) * len(chainSpecs)
+	for _, entry := range []string{"ContainerEdits.Apply", "Device.ApplyEdits"} {
+		total := int64(1)
+		for i := 0; i < chainLen; i++ {
+			total *= int64(nst)
+		}
+		rad := make([]int, chainLen)
+		for i := range rad {
+			rad[i] = nst
+		}
+		for i := int64(0); i < total; i++ {
+			var ch []Step
+			for _, d := range hx.Digits(i, rad) {
+				ch = append(ch, Step{E: d / len(chainSpecs), S: d % len(chainSpecs)})
+			}
+			chains = append(chains, Case{Entry: entry, Chain: ch})
+		}
+	}
+	r.ParallelL(int64(len(chains)), func(i int64, l *hx.Local) {
+		d := <-scr
+		res := eval(chains[i], d)
+		scr <- d
+		l.Record(res, func() any { return map[string]any{"entry": chains[i].Entry, "history": chains[i].Chain, "outcome": res.Outcome} })
+	})
+	r.Extra["histories_of_apply_calls_over_shared_edit_objects"] = map[string]any{"length": chainLen, "edit_objects": len(chainEdits), "oci_specs": len(chainSpecs), "histories": len(chains)}
 	os.RemoveAll(root)
 	r.Finish()
 }
